@@ -134,6 +134,11 @@ def parse(pytrs, text, cfg):
         if channel == 'contrary-config':
             own = ','.join(f"{b}.{not kw[b]}" for b in _BOOLS)
         t = pytrs.Tract(text, config=own)
+        if len(text) % 3 == 0:
+            # a what-if parse first (the opposite booleans, another depth),
+            # not committed: the committed parse is unaffected by it
+            t.parse(commit=False, qq_depth=1,
+                    **{b: not kw[b] for b in _BOOLS})
         t.parse(**kw)
     return {'lots': list(t.lots), 'qqs': list(t.qqs),
             'lots_qqs': list(t.lots_qqs), 'ilots': list(t.ilots),
